@@ -491,6 +491,129 @@ func runRekey(s *kernel.Sim, c *scen.Case) {
 	s.Probe("rekey-no-keystream-reuse")
 }
 
+// runWriteError: a protected frame's write fails with a timeout after part of it has left
+// (a write deadline on a full socket buffer); the connection stays usable and the sender
+// sends on. Whatever the stream does with its counters, the bytes that went out for the
+// failed frame and the following frame must not share a key stream.
+func runWriteError(s *kernel.Sim, c *scen.Case) {
+	t := s.T
+	ctx := context.Background()
+	net := simnet.New(s, simnet.Config{})
+	a, b := net.Pipe("A", "B", "10.0.0.1:1000", "10.0.0.2:9618")
+	a.Tap()
+	sa, sb := stream.NewStream(a), stream.NewStream(b)
+	key := t.Bytes("key", 32)
+	_ = sa.SetSymmetricKey(key)
+	_ = sb.SetSymmetricKey(key)
+	nBefore := t.Choose("before", 3) // 0: the failed frame is the first protected one (carries the IV)
+	failAt := 0
+	writes := 0
+	a.OnOp = func(op simnet.Op) simnet.Action {
+		if op.Kind == 'W' {
+			writes++
+			if writes == failAt {
+				return simnet.Timeout
+			}
+		}
+		return simnet.Proceed
+	}
+	var plains [][]byte
+	mk := func() []byte {
+		p := t.Bytes("plain", 120+t.Choose("len", 200))
+		plains = append(plains, p)
+		return p
+	}
+	var sendErr error
+	s.Go("A", func() {
+		for i := 0; i < nBefore; i++ {
+			if err := sa.SendMessage(ctx, mk()); err != nil {
+				return
+			}
+		}
+		failAt = writes + 1
+		sendErr = sa.SendMessage(ctx, mk()) // this write times out half-way
+		_ = sa.SendMessage(ctx, mk())       // the sender carries on with a fresh message
+		_ = sa.SendMessage(ctx, mk())
+		a.Close()
+	})
+	s.Go("B", func() {
+		for {
+			if _, err := sb.ReceiveCompleteMessage(ctx); err != nil {
+				return
+			}
+		}
+	})
+	s.Run()
+	defer func() { a.CloseQuiet(); b.CloseQuiet() }()
+	for _, tk := range s.Tasks() {
+		if tk.Panic != nil {
+			s.Violate("panic", "write-error", fmt.Sprintf("task %s: %v\n%s", tk.Name, tk.Panic, tk.Stack))
+			return
+		}
+	}
+	if sendErr == nil {
+		s.Probe("write-timeout-not-reached")
+		return
+	}
+	// cut the wire bytes back into what each send put out: whole frames, the half frame, the rest
+	wire := a.SentBytes()
+	var pieces [][]byte // ciphertext-bearing bytes of each attempted frame, header stripped
+	off := 0
+	for i := range plains {
+		if off+5 > len(wire) {
+			break
+		}
+		if i == nBefore {
+			// the failed frame: its announced length says how long it would have been; half of it left
+			full := 5 + int(wire[off+1])<<24 | int(wire[off+2])<<16 | int(wire[off+3])<<8 | int(wire[off+4])
+			full = 5 + (int(wire[off+1])<<24 | int(wire[off+2])<<16 | int(wire[off+3])<<8 | int(wire[off+4]))
+			k := full / 2
+			if off+k > len(wire) {
+				k = len(wire) - off
+			}
+			pieces = append(pieces, wire[off+5:off+k])
+			off += k
+			continue
+		}
+		n := int(wire[off+1])<<24 | int(wire[off+2])<<16 | int(wire[off+3])<<8 | int(wire[off+4])
+		if off+5+n > len(wire) {
+			break
+		}
+		pieces = append(pieces, wire[off+5:off+5+n])
+		off += 5 + n
+	}
+	xorMatch := func(c1, c2, p1, p2 []byte) bool {
+		n := len(c1)
+		for _, l := range []int{len(c2), len(p1), len(p2)} {
+			if l < n {
+				n = l
+			}
+		}
+		if n < 32 {
+			return false
+		}
+		for i := 0; i < n; i++ {
+			if c1[i]^c2[i] != p1[i]^p2[i] {
+				return false
+			}
+		}
+		return true
+	}
+	for i := 0; i < len(pieces); i++ {
+		for j := i + 1; j < len(pieces); j++ {
+			for _, oi := range []int{0, 16} {
+				for _, oj := range []int{0, 16} {
+					if len(pieces[i]) > oi+32 && len(pieces[j]) > oj+32 && xorMatch(pieces[i][oi:], pieces[j][oj:], plains[i], plains[j]) {
+						s.Violate("nonce-reuse", "after-failed-write", fmt.Sprintf("frame %d (its write failed with a timeout after half of it had left) and frame %d share a key stream: c1 xor c2 == p1 xor p2 over >= 32 bytes", i, j))
+						return
+					}
+				}
+			}
+		}
+	}
+	s.Probe("no-keystream-reuse-after-failed-write")
+}
+
 // runRefSender: frames built by the reference codec are fed to the real receiver.
 func runRefSender(s *kernel.Sim, c *scen.Case) {
 	t := s.T
@@ -766,6 +889,13 @@ var scenarios = []*scen.Scenario{
 			}
 		}
 	}, Run: runHistory},
+	{Name: "write-error", Weight: 1, Gen: func(g *scen.Gen) {
+		for i := uint64(0); ; i++ {
+			if !g.Emit(scen.Case{Seed: g.Seed*1_000_081 + i}) {
+				return
+			}
+		}
+	}, Run: runWriteError},
 	{Name: "rekey", Weight: 1, Gen: func(g *scen.Gen) {
 		for i := uint64(0); ; i++ {
 			if !g.Emit(scen.Case{Seed: g.Seed*1_000_033 + i}) {
